@@ -7,8 +7,8 @@ import OrqModel.Model.Eval
 
 namespace Orq
 
-theorem taskStatusOf_staged (st : WState) (X : List Staged) (tid : String) (fuel route : Nat) :
-    taskStatusOf { st with staged := X } tid fuel route = taskStatusOf st tid fuel route := by
+theorem taskStatusOf_staged (st : WState) (X : List Staged) (P : List (Nat × TransId × Nat)) (tid : String) (fuel route : Nat) :
+    taskStatusOf { st with staged := X, pubLog := P } tid fuel route = taskStatusOf st tid fuel route := by
   induction fuel generalizing route with
   | zero =>
     cases route with
@@ -19,8 +19,8 @@ theorem taskStatusOf_staged (st : WState) (X : List Staged) (tid : String) (fuel
     | zero => simp only [taskStatusOf, WState.taskIdx?]
     | succ r => simp only [taskStatusOf, WState.taskIdx?, ih]
 
-theorem fragEval_staged (st : WState) (X : List Staged) (e : Expr) : ∀ ec : EvalCtx,
-    fragEval e { ec with st := some { st with staged := X } } = fragEval e { ec with st := some st } := by
+theorem fragEval_staged (st : WState) (X : List Staged) (P : List (Nat × TransId × Nat)) (e : Expr) : ∀ ec : EvalCtx,
+    fragEval e { ec with st := some { st with staged := X, pubLog := P } } = fragEval e { ec with st := some st } := by
   induction e with
   | taskStatus t => intro ec; simp only [fragEval, taskStatusOf_staged]
   | succeeded => intro ec; simp only [fragEval, curTaskStatus, taskStatusOf_staged]
@@ -37,7 +37,7 @@ theorem fragEval_staged (st : WState) (X : List Staged) (e : Expr) : ∀ ec : Ev
 
 theorem fragEvaluator_itemsBlind : fragEvaluator.ItemsBlind := by
   intro st st' h e ec
-  have hst : st' = { st with staged := st'.staged } := by
+  have hst : st' = { st with staged := st'.staged, pubLog := st'.pubLog } := by
     obtain ⟨h1, h2, h3, h4, h5, h6, _⟩ := h
     cases st'
     cases st
@@ -45,6 +45,6 @@ theorem fragEvaluator_itemsBlind : fragEvaluator.ItemsBlind := by
     subst h1 h2 h3 h4 h5 h6
     rfl
   rw [hst]
-  exact fragEval_staged st st'.staged e ec
+  exact fragEval_staged st st'.staged st'.pubLog e ec
 
 end Orq
